@@ -51,12 +51,17 @@ def gen_cases(rng, tier):
         for e in sub + [None]:
             cases.append({"k": "feat", "s": s, "e": e})
             cases.append({"k": "dict", "s": s, "e": e})
+            if s is not None and e is not None:
+                # coordinates edited after construction: the bin written to the database (astuple) follows them
+                cases.append({"k": "store", "s0": rng.choice(sub), "e0": rng.choice(sub), "s": s, "e": e})
     return cases
 
 
 def valid_case(c):
     if c.get("k") == "bins":
         return c.get("fmt") in ("gff", "bed") and isinstance(c.get("s"), int) and isinstance(c.get("e"), int)
+    if c.get("k") == "store":
+        return all(isinstance(c.get(x), int) for x in ("s0", "e0", "s", "e"))
     return c.get("k") in ("feat", "dict")
 
 
@@ -87,7 +92,11 @@ def run_impl(case):
         return {"t": "err", "cls": "Other"}
     conv = lambda v: "." if v is None else v
     try:
-        if case["k"] == "feat":
+        if case["k"] == "store":
+            f = Feature(start=case["s0"], end=case["e0"])
+            f.start, f.end = case["s"], case["e"]
+            r = f.astuple()[-1]
+        elif case["k"] == "feat":
             f = Feature(start=conv(case["s"]), end=conv(case["e"]))
             r1 = f.bin
             r2 = f.astuple()[-1]
@@ -118,7 +127,7 @@ def coq_case(c, o):
         return "CBins %s %s %s %s %s" % ("Gff" if c["fmt"] == "gff" else "Bed", L.z(c["s"]), L.z(c["e"]),
                                          L.b(c["one"]), coq_bres(o))
     impl = "(Some %s)" % L.z(o["v"]) if o["t"] == "int" else ("None" if o["t"] == "none" else "(Some (-99))")
-    ctor = "CFeat" if c["k"] == "feat" else "CDict"
+    ctor = {"feat": "CFeat", "dict": "CDict", "store": "CDict"}[c["k"]]
     return "%s %s %s %s" % (ctor, L.opt(c["s"], L.z), L.opt(c["e"], L.z), impl)
 
 
